@@ -70,7 +70,8 @@ WakePing == [P0 EXCEPT !.t = "PINGREQ", !.hascid = TRUE]
 
 TxRec(kind, phase, call, due, pkt, tl, h, tit, tid) ==
     [kind |-> kind, phase |-> phase, call |-> call, due |-> due, retries |-> 0,
-     pkt |-> pkt, tl |-> tl, h |-> h, tit |-> tit, tid |-> tid]
+     pkt |-> pkt, tl |-> tl, h |-> h, tit |-> tit, tid |-> tid,
+     refused |-> 0]   \* ghost: refusals received and taken as "try again later"
 TyRec(kind, phase, call, due, pkt, dur, close) ==
     [kind |-> kind, phase |-> phase, call |-> call, due |-> due, retries |-> 0,
      pkt |-> pkt, dur |-> dur, close |-> close]
@@ -639,12 +640,20 @@ ApiEv == \E a0 \in GenApis :
            IN /\ ApiOk(s, a)
               /\ LET r == DoApi([s EXCEPT !.ncall = @ + 1], a) IN Step([e |-> "api", a |-> a], r)
 
+Refusal(st, p) == /\ p.t \in {"REGACK", "SUBACK"} /\ p.rc # 0 /\ p.mid \in DOMAIN st.tx
+                  /\ st.tx[p.mid].kind = (IF p.t = "REGACK" THEN "reg" ELSE "sub")
+
+Refused(st, p) == [st EXCEPT !.tx[p.mid].refused = @ + 1]
+
 GwEv == \E p0 \in GenGw : \E m \in GwMids(s, p0) :
            LET p == [p0 EXCEPT !.mid = m]
                \* ref: the packet carries the message ID of that call's exchange, whatever ID the client chose
                ref == IF m \in DOMAIN s.alloc THEN s.alloc[m] ELSE ""
            IN /\ s.alive
-              /\ Step([e |-> "gw", p |-> p, ref |-> ref], DoGw(s, p))
+              /\ \/ Step([e |-> "gw", p |-> p, ref |-> ref], DoGw(s, p))
+                 \* a refusal may also be taken as "try again later": the exchange goes on unchanged (no progress)
+                 \/ /\ Refusal(s, p)
+                    /\ Step([e |-> "gw", p |-> p, ref |-> ref], Res(Refused(s, p), <<>>, {}))
 
 AdvEv == /\ NextDue(s) > 0
          /\ LET n  == NextDue(s)
